@@ -729,7 +729,6 @@ macro "b91_step" ih:ident : tactic => `(tactic| (
          List.nil_append, List.cons.injEq, and_true]
        omega)))
 
-set_option maxHeartbeats 1000000 in
 theorem b91_sim_cons (x : Nat) (rest : List Nat) (hx : x < 256) (ih : B91Sim rest) : B91Sim (x :: rest) := by
   intro q nb dq dn hq hnb hdq hdn hmod
   unfold B91Sim at ih
@@ -791,7 +790,6 @@ macro "b91_nil_lo" : tactic => `(tactic| (
 
 macro "b91_nil_hi" : tactic => `(tactic| (b91_red; b91_pair))
 
-set_option maxHeartbeats 1000000 in
 theorem b91_sim_nil : B91Sim [] := by
   intro q nb dq dn hq hnb hdq hdn hmod
   have hd : dn = 0 ∨ dn = 1 ∨ dn = 2 ∨ dn = 3 ∨ dn = 4 ∨ dn = 5 ∨ dn = 6 ∨ dn = 7 := by
